@@ -77,28 +77,17 @@ def _real_fluid():
         return FlowProperties(pvt, 8000.0)
 
 
-def replay_rows(model, cls="SinglePhaseReservoir", nx=4, nt=3):
-    """Real run on the model's (non-uniform) time grid; every captured system is compared with the
-    reference backward-Euler rows built from the stored previous level."""
+def _rows_problems(calls, pp, t, nx, fluid):
+    """Compare every captured system of a real run with the backward-Euler rows built from the stored previous level."""
     import numpy as np
-    t = [float(model.get("t0") or 0.0)]
-    for k in range(1, nt):
-        t.append(t[-1] + float(model.get(f"dt{k}") or 10.0 ** (-k)))
-    t = np.array(t)
-    fluid = None if cls == "IdealReservoir" else _real_fluid()
-    res, calls = real_capture(cls, nx, t, fluid, None)
-    if cls != "IdealReservoir":
-        res.pressure_fracface = 1000.0
-        res, calls = real_capture(cls, nx, t, fluid, np.full(nt, 1000.0))
-    pp = np.asarray(res.pseudopressure, float)
     problems = []
     H = None
+    m_i = 1.0 if fluid is None else float(fluid.m_i)
     for i, c in enumerate(calls):
         prev = pp[i]
         dt = t[i + 1] - t[i]
-        m_i = 1.0 if fluid is None else float(fluid.m_i)
         pm = np.minimum(prev, m_i)
-        a = np.ones(nx) if fluid is None else fluid.alpha(pm) / fluid.alpha(fluid.m_i)
+        a = np.ones(nx) if fluid is None else np.asarray(fluid.alpha(pm), float) / float(fluid.alpha(fluid.m_i))
         A, b = c["A"], c["b"]
         Hi = -A[nx - 1, nx - 2] / (dt * a[nx - 1])
         H = Hi if H is None else H
@@ -112,9 +101,50 @@ def replay_rows(model, cls="SinglePhaseReservoir", nx=4, nt=3):
             else:
                 want[j - 1], want[j] = -r, 1 + r
             if np.any(np.abs(A[j] - want) > 1e-9 * (1 + abs(r))) or abs(b[j] - pm[j]) > 1e-12 * (1 + abs(pm[j])):
-                problems.append(f"step {i} row {j}: matrix row {A[j].tolist()} rhs {b[j]!r} vs backward-Euler row {want.tolist()} rhs {pm[j]!r}")
-    return bool(problems), {"what": f"{cls} nx={nx} times {t.tolist()}: " + ("; ".join(problems[:2]) or "every row is the backward-Euler row"),
-                            "inputs": {k: v for k, v in model.items() if k != "__uf__"}}
+                problems.append(f"step {i} row {j}: matrix row {A[j].tolist()} rhs {b[j]!r} vs backward-Euler row {want.tolist()} rhs {pm[j]!r} "
+                                f"(stored previous level {prev.tolist()})")
+    return problems
+
+
+def replay_rows(model, cls="SinglePhaseReservoir", nx=4, nt=3, schedule=False):
+    """Real runs through the public API on the witness: the model's time grid (and the same grid with its steps scaled
+    up, which lets the field relax further towards the schedule), the model's frac-face schedule and diffusivity (a
+    duck-typed FlowProperties built from the solver's model) and the shipped gas table.  The havoc'd level of the
+    symbolic step is NOT injected: a violation is reported only if some real run stores a level that is not the
+    backward-Euler update of the stored previous level."""
+    import numpy as np
+    runs = []
+    for scale in (1.0, 30.0, 1000.0):
+        t = [float(model.get("t0") or 0.0)]
+        for k in range(1, nt):
+            t.append(t[-1] + scale * float(model.get(f"dt{k}") or 10.0 ** (-k)))
+        t = np.array(t)
+        if cls == "IdealReservoir":
+            res, calls = real_capture(cls, nx, t, None, None)
+            runs.append((f"times {t.tolist()}", None, res, calls, t))
+            continue
+        duck = _DuckFluid(model, nt)
+        if schedule:
+            res, calls = real_capture(cls, nx, t, duck, np.arange(nt, dtype=float))
+        else:
+            duck._mf = [duck._mf[0]] * nt
+            res, calls = real_capture(cls, nx, t, duck, None)
+        runs.append((f"times {t.tolist()}, m_f={duck._mf}, m_i={duck.m_i}, diffusivity from the solver's model", duck, res, calls, t))
+        if scale == 1.0:
+            fluid = _real_fluid()
+            sched = np.full(nt, 1000.0)
+            if schedule:
+                # same ordering of the frac-face values as in the model, on the shipped table
+                mf = np.array(duck._mf) / max(duck.m_i, 1e-300)
+                sched = 200.0 + np.clip(mf, 0.0, 1.0) * 7000.0
+            res, calls = real_capture(cls, nx, t, fluid, sched)
+            runs.append((f"times {t.tolist()}, shipped gas table, p_i=8000, schedule {sched.tolist()}", fluid, res, calls, t))
+    for what, fluid, res, calls, t in runs:
+        pp = np.asarray(res.pseudopressure, float)
+        problems = _rows_problems(calls, pp, t, nx, fluid)
+        if problems:
+            return True, {"what": f"{cls} nx={nx}, {what}: " + "; ".join(problems[:2]), "inputs": {k: v for k, v in model.items() if k != "__uf__"}}
+    return False, {"what": f"{cls} nx={nx}: every row of {len(runs)} real runs is the backward-Euler row", "inputs": {k: v for k, v in model.items() if k != "__uf__"}}
 
 
 def replay_tolerance(model, cls="SinglePhaseReservoir"):
@@ -174,21 +204,40 @@ def _run(mod, cls, nx, nt, policy, schedule=False):
     return r, fluid, t
 
 
-def job_rows(job, cls, nx, nt, schedule=False):
+def job_rows(job, cls, nx, nt, schedule=False, reachable=False):
+    """reachable=False: every level is havoc'd inside C01's bounds (covers any number of steps; a counterexample may
+    start from a level no run reaches and is then not confirmed by the replay).  reachable=True: the levels are the
+    exact solutions from the real initial state (the first nt-1 steps only), so a counterexample is a real run."""
     mod = load_reservoir()
     job.encoded(mod, f"{cls}.simulate", "_build_matrix")
     job.stub("linear solve: capturing stub (records A, b, keyword arguments; returns an arbitrary vector - every level is havoc'd, "
              "bounded above by the initial value as C01 establishes)", "scipy.sparse.diags: exact dense model", "fluid*: contract stub")
     job.bound(rows_nx=nx, rows_steps=nt - 1)
-    tag = f"{cls}[nx={nx},steps={nt - 1}{',schedule' if schedule else ''}]"
+    tag = f"{cls}[nx={nx},steps={nt - 1}{',schedule' if schedule else ''}{',from the initial state' if reachable else ''}]"
+    if reachable:
+        job.solve_defaults = {"elim": True}
     hold = {}
 
     def pol(rec):
+        # the havoc'd level lies inside the bounds C01 establishes for every stored level:
+        # [lowest frac-face value applied so far, initial value]
         hi = hold.get("hi")
         if hi is not None:
             c = ctx()
+            fl = hold.get("fluid")
+            if fl is None:
+                lo = Q(0)
+            else:
+                from ..sx.sym import s_min
+                vals = list(fl._mf.values())[: rec["index"] + 1] or list(fl._mf.values())
+                lo = vals[0]
+                for v in vals[1:]:
+                    lo = s_min(lo, v)
             for x in rec["x"]:
                 c.assume((lift(x) <= lift(hi)).node)
+                c.assume((lift(x) >= lift(lo)).node)
+        if reachable:
+            SS.exact_solve(rec)
         return 0
 
     def run():
@@ -203,6 +252,7 @@ def job_rows(job, cls, nx, nt, schedule=False):
             return r, None, t, list(SS.LinSolve.calls)
         fluid = FluidStub()
         hold["hi"] = fluid.m_i
+        hold["fluid"] = fluid
         r = mod.SinglePhaseReservoir(Q(nx), fresh("pf"), fresh("pi", pos=True), fluid)
         if schedule:
             r.simulate(t, pressure_fracface=SymArray([fresh(f"pfs{k}") for k in range(nt)], "f8"))
@@ -210,7 +260,7 @@ def job_rows(job, cls, nx, nt, schedule=False):
             r.simulate(t)
         return r, fluid, t, list(SS.LinSolve.calls)
 
-    rp = (replay_rows, {"cls": cls, "nx": nx, "nt": nt})
+    rp = (replay_rows, {"cls": cls, "nx": nx, "nt": nt, "schedule": schedule})
     for k, pr in enumerate(paths(job, run, [], max_paths=16)):
         if pr.exc is not None:
             job.errors.append(f"{tag} raised {pr.exc!r}")
@@ -331,6 +381,8 @@ def jobs(tier):
         for nx in nxs:
             out.append((f"rows-{cls[:6]}-{nx}", lambda j, c=cls, n=nx: job_rows(j, c, n, 4 if tier == "quick" else 5)))
         out.append((f"rows-sched-{cls[:6]}", lambda j, c=cls: job_rows(j, c, 4, 4, schedule=(c != "IdealReservoir"))))
+        for nx in ((3, 4) if tier == "quick" else (3, 4, 5, 6)):
+            out.append((f"rows-reach-{cls[:6]}-{nx}", lambda j, c=cls, n=nx: job_rows(j, c, n, 3, schedule=(c != "IdealReservoir"), reachable=True)))
         out.append((f"tolerance-{cls[:6]}", lambda j, c=cls: job_tolerance(j, c)))
         out.append((f"flag-{cls[:6]}", lambda j, c=cls: job_flag(j, c)))
     return out
